@@ -110,6 +110,23 @@ func (w *c40world) FindFeatureByID(id b6.FeatureID) b6.Feature {
 	return w.MutableWorld.FindFeatureByID(id)
 }
 
+// FindFeatures probes every step of the iteration: a search result is consumed
+// lazily, possibly from goroutines other than the request's own.
+func (w *c40world) FindFeatures(q b6.Query) b6.Features {
+	w.p.read()
+	return &c40features{Features: w.MutableWorld.FindFeatures(q), p: w.p}
+}
+
+type c40features struct {
+	b6.Features
+	p *c40probe
+}
+
+func (f *c40features) Next() bool {
+	f.p.read()
+	return f.Features.Next()
+}
+
 func (w *c40world) HasFeatureWithID(id b6.FeatureID) bool {
 	w.p.read()
 	return w.MutableWorld.HasFeatureWithID(id)
